@@ -15,7 +15,8 @@ META = dict(
     explanation="consistent_sampling is executed symbolically on M cards x C contests: which contests each card lists, the (distinct) "
                 "sample numbers and the per-contest sample sizes are z3 variables; vote contents are poisoned objects that raise if read. "
                 "Per path the returned indices, thresholds, `sampled` flags and the cards mvrs_to_data hands to each contest are compared "
-                "with the specification written in z3 (first n_c cards of c's own sample-number order).",
+                "with the specification written in z3 (first n_c cards of c's own sample-number order). Numbering: the i-th record gets the "
+                "i-th PRNG output whether or not it already carried a number (symbolic presence and value of an earlier number).",
     bounds={"quick": {"shapes (cards x contests)": [[3, 2], [2, 2], [4, 1]]}, "thorough": {"shapes": [[4, 2], [3, 3], [5, 1], [3, 2]]}},
     outside=["more cards / contests than the shapes", "SHA-256 itself (sample numbers are arbitrary distinct integers below 2^55)"],
     assumptions=["distinct sample numbers", "0 <= n_c <= number of cards listing c (data clause: n_c >= 1; with n_c = 0 no threshold is set)", "PRNG stub: nextRandom() returns an arbitrary value per call; int_from_hash is the identity on it"],
